@@ -329,6 +329,38 @@ def rule_inventory(ctx, rep):
     return by_loc
 
 
+def _context_manager_pair(model, ws):
+    """If a location is written in __enter__ and in __exit__ of one class: (class, every construction of the class is
+    the context expression of a with statement, why)."""
+    classes = {}
+    for w in ws:
+        if w.fi.cls is not None and w.fi.name in ('__enter__', '__exit__'):
+            classes.setdefault(w.fi.cls, set()).add(w.fi.name)
+    for klass, names in classes.items():
+        if names != {'__enter__', '__exit__'}:
+            continue
+        uses, bad = 0, None
+        for u in model.units.values():
+            withs = set()
+            for n in ast.walk(u.tree):
+                if isinstance(n, (ast.With, ast.AsyncWith)):
+                    for item in n.items:
+                        withs.add(id(item.context_expr))
+            for n in ast.walk(u.tree):
+                if isinstance(n, ast.Call):
+                    r = model.resolve_expr(u.modname, n.func) if isinstance(n.func, (ast.Name, ast.Attribute)) else None
+                    if r is klass:
+                        uses += 1
+                        if id(n) not in withs:
+                            bad = 'it is constructed outside a with statement in %s (line %d)' % (u.modname, n.lineno)
+        if uses == 0:
+            return klass, False, 'it is never used'
+        if bad:
+            return klass, False, bad
+        return klass, True, 'constructed only as the context expression of a with statement (%d use(s))' % uses
+    return None
+
+
 def rule_override(ctx, rep, by_loc):
     model = ctx.model
     rep.rule('D-OVERRIDE', 'override of global state is restored on every path, exceptional ones included')
@@ -343,6 +375,20 @@ def rule_override(ctx, rep, by_loc):
         by_fn = {}
         for w in ws:
             by_fn.setdefault(w.fi.qualname, []).append(w)
+        # override in __enter__ / restore in __exit__ of one class that is only ever used as `with C(...):` - the
+        # with statement runs __exit__ on every exit, exceptional ones included
+        cm = _context_manager_pair(model, ws)
+        if cm is not None:
+            klass, uses_ok, why = cm
+            rep.instance('D-OVERRIDE')
+            n += 1
+            rep.obligation('D-OVERRIDE', uses_ok, {'location': l, 'context manager': klass.short, 'why': why})
+            if not uses_ok:
+                rep.find('D-OVERRIDE', klass.short, l, '%s overrides %s in __enter__ and restores it in __exit__, but %s'
+                         % (klass.short, l, why), loc(model.unit_of(klass), klass.node))
+            for q in list(by_fn):
+                if by_fn[q][0].fi.cls is klass and by_fn[q][0].fi.name in ('__enter__', '__exit__'):
+                    del by_fn[q]
         for q, fws in by_fn.items():
             fi = fws[0].fi
             fws.sort(key=lambda w: (w.node.lineno, w.node.col_offset))
